@@ -167,13 +167,20 @@ def run(chk):
         ("dbl == 200 ? [1, 2, 3].exists_one(v, dbl == 4) : false", "OK b1"),
         ("[3].map(v, dbl) == [6] && dbl == 200 && [4].map(v, dbl) == [8]", "OK b1"),
         ("dbl == 200 ? [1].map(v, [2].map(v, dbl)) : []", "OK " + vlist([vlist([vi(4)])])),
+        ("[1, 2, 3].filter(v, keep)", "OK " + vlist([vi(2), vi(3)])), ("[1, 2, 3].filter(v, (keep))", "OK " + vlist([vi(2), vi(3)])),
+        ("[1, 2].filter(v, int)", "OK " + vlist([vi(1), vi(2)])), ("[1, 2].filter(v, x9)", "OK " + vlist([vi(1), vi(2)])),
+        ("[1, 2].filter(v, zz)", "ERR"), ("[1, 2, 3].all(v, keep)", "OK b0"), ("[1, 2, 3].exists(v, keep)", "OK b1"),
+        ("[1, 2, 3].exists_one(v, keep)", "OK b0"), ("[1, 2, 3].map(v, keep)", "OK " + vlist([vb(False), vb(True), vb(True)])),
+        ("[1, 2, 3].map(v, keep, v)", "OK " + vlist([vi(2), vi(3)])), ("[1, 2].all(v, int)", "OK b1"), ("[1, 2].exists(v, zz)", "ERR"),
+        ("[1, 2, 3].reduce(a, v, keep, 0)", "OK b1"), ("{'a': 1, 'b': 2}.filter(v, kb)", "OK " + vlist([vs("b")])),
+        ("[1, 2].map(v, int)", "OK " + vlist([vtype("int"), vtype("int")])),
         ("cur == -1 && [7, 8].map(zz, cur) == [7, 8]", "OK b1"),
         ("cur == -1 ? [7, 8].map(zz, cur) + [cur] : []", "OK " + vlist([vi(7), vi(8), vi(-1)])),
     ]
     for src, w in scoped:
         binds = [("l", vlist([])), ("k", vi(K)), ("v", vi(100)), ("acc", vi(-7)), ("x9", vi(1)),
                  ("m1", dict(STD_BINDS)["m1"]), ("i1", vi(5))]
-        cases.append(evalsrc_case(src, progs=[("dbl", "v * 2"), ("cur", "has(zz) ? zz : -1")], binds=binds))
+        cases.append(evalsrc_case(src, progs=[("dbl", "v * 2"), ("cur", "has(zz) ? zz : -1"), ("keep", "v > 1"), ("kb", "v == 'b'")], binds=binds))
         want.append(((w, None), None)); labels.append(src)
     impl, model = tie(chk, "macros", cases, labels=labels)
     for i, (lab, c, r) in enumerate(zip(labels, cases, impl)):
